@@ -49,12 +49,13 @@ let rec str_of_coq = function
 let item_name = function
   | IRung (_, _) -> "rung" | IComputeCounts -> "IComputeCounts" | IMergeLoop (_, _) -> "IMergeLoop" | ICopyVerts -> "ICopyVerts"
   | ICopyTangents -> "ICopyTangents" | INormaliseRuns -> "INormaliseRuns" | IRunLoop -> "IRunLoop" | ITriLoop (_, _) -> "ITriLoop"
-  | ICreateHalfedges _ -> "ICreateHalfedges" | IPost -> "IPost"
+  | ICreateHalfedges _ -> "ICreateHalfedges" | IPost _ -> "IPost" | ICancelGate _ -> "ICancelGate"
 
 let () =
   let table = if Array.length Sys.argv > 1 && Sys.argv.(1) = "patched" then patched_table
               else if Array.length Sys.argv > 1 && Sys.argv.(1) = "pinned" then pinned_table else current_table in
-  Printf.printf "T safe=%d status=%d unsafe=%s badstatus=%s\n" (if table_safe_current then 1 else 0) (if status_ok_current then 1 else 0)
+  Printf.printf "T safe=%d strong=%d status=%d unsafe=%s badstatus=%s\n" (if table_safe_current then 1 else 0)
+    (if table_safe_strong_current then 1 else 0) (if status_ok_current then 1 else 0)
     (String.concat "," (List.map item_name unsafe_current))
     (String.concat "," (List.map (fun (n, _) -> str_of_coq n) status_bad_current));
   try
@@ -84,7 +85,10 @@ let () =
                   faceIDLen = z_of_int (Array.length fi);
                   tanLen = z_of_int (Array.length ht); tanFinite = allfin ht } in
         let nt = Array.length tv / 3 in
-        let o = { manifoldOK = true; nFaceSort = z_of_int nt } in
+        (* faces at sort time as replayed by the harness (token NF n at the end of the line), else NumTri *)
+        let nf = let n = Array.length toks in
+          if n >= 2 && toks.(n - 2) = "NF" && int_of_string toks.(n - 1) >= 0 then int_of_string toks.(n - 1) else nt in
+        let o = { manifoldOK = true; nFaceSort = z_of_int nf; cancelled = false } in
         let (v, oob) = predict table m o in
         let vs = match v with Done e -> str_of_z (error_code e) | Accepted -> "A" in
         let os = match oob with
